@@ -677,6 +677,17 @@ theorem analyze_memo (pfx : Path) (cl : Bool) (st : Index) (f : Path) (v : Versi
       exact ⟨this.1, by show _ + 1 = _ + 1; rw [this.2]⟩
   exact ⟨h.1.trans hp.1, by have := h.2; rw [hp.2] at this; omega⟩
 
+/-- … and so does the analysis of a text that does not parse (it bumps the version too: what other
+    files get through this one is read from its current text) -/
+theorem analyze_memo_any (pfx : Path) (cl : Bool) (st : Index) (f : Path) (v : Version) :
+    (analyze pfx cl st f v).1.impCache = st.impCache ∧ st.version < (analyze pfx cl st f v).1.version := by
+  cases hv : v.parsed with
+  | some fr => exact analyze_memo pfx cl st f v fr hv
+  | none =>
+    unfold analyze
+    simp only [hv]
+    exact ⟨by trivial, Nat.lt_succ_self _⟩
+
 /-- no memo entry is newer than the index -/
 def MemoBounded (st : Index) : Prop :=
   ∀ f t ver names, alookup st.impCache f = some (t, ver, names) → ver ≤ st.version
@@ -691,13 +702,16 @@ theorem coh_of_older (st : Index)
 end ImpC
 
 open ImpC in
-/-- **C14 (a successful analysis leaves the memo coherent).** Every successful analysis bumps the
-    definitions version and leaves the memo table alone, so every entry becomes invalid: the next
-    query recomputes, and by `C14_imported_is_closure` answers the closure of the NEW contents. -/
-theorem C14_coherent_after_analysis (pfx : Path) (cl : Bool) (st : Index) (f : Path) (v : Version) (fr : FileRec)
-    (hv : v.parsed = some fr) (hb : MemoBounded st) :
+/-- **C14 / C07 (every analysis leaves the memo coherent).** Every analysis - of a text that
+    parses or of one that does not - bumps the definitions version and leaves the memo table
+    alone, so every entry becomes invalid: the next query recomputes, and by
+    `C14_imported_is_closure` answers the closure of the NEW contents. (Before the repair an
+    analysis that failed to parse kept the version: what had been memoised for the files that
+    import the document was answered although the document's imports no longer counted.) -/
+theorem C14_coherent_after_analysis (pfx : Path) (cl : Bool) (st : Index) (f : Path) (v : Version)
+    (hb : MemoBounded st) :
     Coh (Index.analyze pfx cl st f v).1 ∧ MemoBounded (Index.analyze pfx cl st f v).1 := by
-  obtain ⟨h1, h2⟩ := analyze_memo pfx cl st f v fr hv
+  obtain ⟨h1, h2⟩ := analyze_memo_any pfx cl st f v
   constructor
   · apply coh_of_older
     intro g t ver names hl
